@@ -194,7 +194,8 @@ func (b *bitstream) Next() error {
 
 	// Structs with a length code of 1 are a special case. Their length is always encoded
 	// as a VarUInt and their field names appear in ascending symbol ID order.
-	if code == bitcodeStruct && length == 1 {
+	ordered := code == bitcodeStruct && length == 1
+	if ordered {
 		length, _, err = b.readVarUintLen(b.remaining())
 		if err != nil {
 			return err
@@ -242,7 +243,7 @@ func (b *bitstream) Next() error {
 		}
 	}
 
-	if length == 0x0F {
+	if length == 0x0F && !ordered {
 		// This value is actually a null.
 		b.code = code
 		b.null = true
@@ -253,7 +254,7 @@ func (b *bitstream) Next() error {
 	rem := b.remaining()
 
 	// This value's actual length is encoded as a separate varUint.
-	if length == 0x0E {
+	if length == 0x0E && !ordered {
 		var lenghtOfRemaining uint64
 		length, lenghtOfRemaining, err = b.readVarUintLen(rem)
 		if err != nil {
